@@ -264,3 +264,21 @@ Qed.
 Lemma ex_rotate :
   exists t', rotate [(0, [1%nat; 0%nat]); (1, [1%nat; 0%nat]); (4, [0%nat; 1%nat])] ex_t = Some t' /\ t' <> ex_t.
 Proof. eexists. split; [vm_compute; reflexivity | discriminate]. Qed.
+
+(* a seed with a single child: re-seeding makes the old seed a (taxon-less) leaf *)
+Definition ex_unif : tree :=
+  T 0 None None None [T 1 None None (Some 1024) [lf 2 0 (Some 1024); lf 3 1 (Some 1024); lf 4 2 (Some 1024)]].
+
+Lemma seed_unif_refuted :
+  exists t r n upd coll supp t' r',
+    reseed_at t r n upd coll supp = Ok (t', r')
+    /\ is_internal_node n t /\ NoDup (leaf_taxa t) /\ uniform_lengths t
+    /\ ~ Permutation (leaf_taxa t) (leaf_taxa t').
+Proof.
+  exists ex_unif, (Some true), 1, false, false, true. eexists. eexists.
+  split; [vm_compute; reflexivity|].
+  split; [eexists; split; [vm_compute; reflexivity | discriminate]|].
+  split; [simpl; nodup_tac|].
+  split; [left; unfold nonroot_lens; simpl; repeat (constructor; [discriminate|]); constructor|].
+  intro P. apply Permutation_length in P. vm_compute in P. discriminate.
+Qed.
